@@ -30,7 +30,11 @@ def series():
   rng = np.random.RandomState(0)
   base = np.cumsum(rng.normal(0, 1, 30)) + 100
   ys = [base + rng.normal(0, 0.2, 30), 3 * base[::-1] + rng.normal(0, 5, 30)]
-  xs = [None, 2 * base + rng.normal(0, 0.2, 30), rng.normal(100, 10, 30), base + np.arange(30) * 0.5 + rng.normal(0, 1, 30)]
+  x1 = 2 * base + rng.normal(0, 0.2, 30)
+  big = 2.0e6 + np.cumsum(rng.normal(0, 1, 30))
+  xs = [None, x1, rng.normal(100, 10, 30), base + np.arange(30) * 0.5 + rng.normal(0, 1, 30),
+        x1 * (1 + 1e-7 * np.cos(np.arange(30))),          # within 1e-7 (relative) of series 1, not equal to it
+        big, big + 3.0 * np.sin(np.arange(30))]           # two series on a 2e6 baseline that differ by a few units
   return xs, ys
 
 
@@ -121,6 +125,7 @@ def run(tier):
   ck.prove('props/C08.v', gen_targets=['diagcache'], extra=['harness/RunC08.vo'])
   rng = random.Random(ck.seed * 31 + 8)
   alphabet = [('x', 0), ('x', 1), ('x', 2), ('x', 3), ('y', 0), ('y', 1)] + [('r', m) for m in READS]
+  wide = alphabet + [('x', 4), ('x', 5), ('x', 6)]
   hist = []
   # exhaustively: every history of length <= 3 that ends in a read (quick) / <= 4 (thorough)
   maxlen = 3 if tier == 'quick' else 4
@@ -133,9 +138,14 @@ def run(tier):
   for a in READS:
     for b in READS:
       hist.append([('x', 1), ('r', a), ('x', 2), ('r', b), ('y', 1), ('r', b), ('x', 3), ('r', a), ('r', b)])
+  # consecutive assignments of nearly equal control series, for every member
+  for a, b in ((1, 4), (4, 1), (5, 6), (6, 5)):
+    for m in READS:
+      hist.append([('x', a), ('r', m), ('x', b), ('r', m)])
+      hist.append([('x', a), ('x', b), ('r', m)])
   for _ in range(400 if tier == 'quick' else 20000):
     n = rng.randint(4, 14)
-    h = [rng.choice(alphabet) if rng.random() < 0.55 else ('r', rng.choice(READS)) for _ in range(n)]
+    h = [rng.choice(wide) if rng.random() < 0.55 else ('r', rng.choice(READS)) for _ in range(n)]
     h.append(('r', rng.choice(READS)))
     hist.append(h)
   res = common.pmap(_one, hist, chunksize=200)
@@ -168,7 +178,7 @@ def run(tier):
   if bad:
     ck.tie_broken('correspondence', 'staleness predicted by the model (regenerated tables) differs from the object on %d histories' % len(bad),
                   {'history': hist[sorted(bad)[0]]})
-  ck.cov['rule'] = ('alphabet: 4 control series incl. None, 2 treatment series, 10 members read (corr, required_impact, pretestfit, '
+  ck.cov['rule'] = ('alphabet: 4 control series incl. None (random histories also use 3 more: one within 1e-7 relative of another, two on a 2e6 baseline differing by a few units), 2 treatment series, 10 members read (corr, required_impact, pretestfit, '
                     'aatest, bbtest, dwtest, corr_test, tests_ok, tbrfit(xt, yt), estimate_required_impact(rho)); every history of '
                     'length <= %d ending in a read (exhaustive), the set/read/set/read pattern for every pair of members, and random '
                     'histories of length 5-15. non-trivial: at least one assignment and one read; distinct: the history' % maxlen)
